@@ -57,6 +57,18 @@ class SymWalker:
         self.max_depth = max_depth
         self.detail: dict = {}
 
+    def _helper(self, name):
+        """Module-level function of this module, or -- if the name is unique in the package and private -- of another
+        module (imported helper)."""
+        h = self.prog.functions.get(f"{self.module.name}:{name}")
+        if h is not None:
+            return h
+        if name.startswith("_") and not name.startswith("__"):
+            cands = [f for f in self.prog.find_func(name) if f.cls is None and f.parent is None]
+            if len(cands) == 1:
+                return cands[0]
+        return None
+
     def _table_entry(self, f):
         """The entry selected from a module-level dict literal by a key whose value the scenario fixes
         (self.consts: {source text of the key expression: value}); None if not of that form."""
@@ -95,8 +107,34 @@ class SymWalker:
 
     # ---- values
     def value(self, e, env, depth=0):
-        """Substituted expression; helper calls at the top of the expression are summarised."""
+        """Substituted expression; helper calls (at the top and inside the expression) are summarised."""
         e2 = subst(e, env)
+        if depth < self.max_depth and not isinstance(e2, (ast.ListComp, ast.Lambda)) and any(isinstance(n, ast.Call) and n is not e2 for n in ast.walk(e2)):
+            walker = self
+
+            class _Inner(ast.NodeTransformer):
+                def visit_Call(self, node):
+                    self.generic_visit(node)
+                    if node is e2:
+                        return node
+                    defs = {k: v for k, v in env.items() if k.startswith("def:")}
+                    is_helper = isinstance(node.func, ast.Name) and (("def:" + node.func.id) in defs or walker._helper(node.func.id) is not None)
+                    if is_helper or walker._table_entry(node.func) is not None or walker._table_entry(node) is not None:
+                        r = walker.value(node, defs, depth)
+                        return r
+                    return node
+
+                def visit_Lambda(self, node):
+                    return node
+
+                def visit_ListComp(self, node):
+                    return node
+
+                visit_GeneratorExp = visit_SetComp = visit_DictComp = visit_ListComp
+
+            e2 = _Inner().visit(e2)
+            env = {k: v for k, v in env.items() if k.startswith("def:")}
+            e = e2
         if isinstance(e2, ast.IfExp):
             t = self.truth(e2.test, {}, depth)
             if t is not None:
@@ -138,7 +176,7 @@ class SymWalker:
                 if len(texts) == 1 and vals:
                     return vals[0]
         if isinstance(e2, ast.Call) and isinstance(e2.func, ast.Name) and depth < self.max_depth:
-            h = self.prog.functions.get(f"{self.module.name}:{e2.func.id}")
+            h = self._helper(e2.func.id)
             if h is not None and not h.node.decorator_list and not any(isinstance(a, ast.Starred) for a in e2.args) and all(k.arg for k in e2.keywords):
                 from .inline import bind_args
                 binding = bind_args(h.node, e2)
